@@ -310,6 +310,71 @@ def creation_documents(ctx):
         for how in ("new", "detached", "group_layers"):
             attempt("groups-%s-%s-d%d" % (how, tm, depth), "creation/Group." + ("group_layers" if how == "group_layers" else "new"),
                     {"entry": "Group." + how, "document": tm, "depth": depth}, lambda: tree(how=how))
+    # (E) the merged image in EVERY compression x how the document came to be (new / frompil / opened from a file that
+    #     stores it that way) x structural edit x FIRST and SECOND save: save() regenerates the merged image after an
+    #     edit, and what it stores must decode according to the code it declares
+    all_comps = [Compression.RAW, Compression.RLE, Compression.ZIP, Compression.ZIP_WITH_PREDICTION]
+
+    def edit(p, how):
+        im = pil_image("RGB", (2, 2), 1)
+        a = PixelLayer.frompil(im, p, "a")
+        b = PixelLayer.frompil(im, p, "b", 1, 1)
+        if how == "append":
+            p.append(a)
+        elif how == "append-remove":
+            p.append(a)
+            p.append(b)
+            p.remove(a)
+        elif how == "move":
+            p.append(a)
+            p.append(b)
+            p.remove(b)
+            p.insert(0, b)
+        elif how == "group_layers":
+            p.append(a)
+            p.append(b)
+            Group.group_layers([a, b], "grouped")
+        elif how == "group-new":
+            g = Group.new("g", parent=p)
+            g.append(a)
+        elif how == "clear":
+            p.append(a)
+            p.clear()
+
+    regen = [t for t in targets if t[0].upper().rstrip("A") in ("RGB", "GRAYSCALE", "CMYK", "L", "LA")]
+    control = [t for t in targets if t not in regen][:: max(1, len(targets) // 4)][:3]
+    edits = ["append", "append-remove", "move", "group_layers", "group-new", "clear"]
+    n_e = 0
+    for tm, depth in regen + control:
+        for comp in all_comps:
+            plans = [("new", "append"), ("frompil", "append"), ("opened", "append")] + [("new", e) for e in edits[1:]] \
+                + [("opened", edits[1 + (n_e % (len(edits) - 1))])]
+            if not quick:
+                plans = [(s_, e) for s_ in ("new", "frompil", "opened") for e in edits]
+            n_e += 1
+            for source, how in plans:
+                def make(tm=tm, depth=depth, comp=comp, source=source):
+                    if source == "frompil":
+                        im = pil_image(tm, (5, 4), 2)
+                        if im is None or depth != 8:
+                            raise ValueError("no PIL image of this mode/depth")
+                        return PSDImage.frompil(im, compression=comp)
+                    p = PSDImage.new(tm, (5, 4), color=(90 if depth == 8 else 30000), depth=depth, compression=comp)
+                    if source == "opened":
+                        p = PSDImage.open(io.BytesIO(_save(p)))
+                    return p
+                holder = {}
+
+                def first(make=make, how=how, holder=holder):
+                    p = make()
+                    edit(p, how)
+                    holder["p"] = p
+                    return _save(p)
+                meta = {"entry": "merged-compression", "source": source, "document": tm, "depth": depth,
+                        "merged_compression": int(comp), "edit": how}
+                lab = "merged-c%d-%s-%s-%s-d%d" % (int(comp), source, how, tm, depth)
+                if attempt(lab + "-save1", "creation/edit-then-save", dict(meta, save=1), first) and "p" in holder:
+                    attempt(lab + "-save2", "creation/edit-then-save", dict(meta, save=2), lambda: _save(holder["p"]))
     ctx.extra["creation_matrix"] = {
         "mode_names": [m for m, _ in names], "pil_modes": pil_modes,
         "documents_PSDImage_new_accepts": ["%s/d%d" % t for t in doc_modes],
@@ -337,4 +402,9 @@ def run(ctx):
                  "into a document of every creatable header, Group.new / group_layers) x every mode name (PIL.Image.MODES, "
                  "ColorMode names with and without alpha, the keys of the library's pil_io tables, lower-case spellings) x depth "
                  "8/16/32 x compression x PSD/PSB; what an entry point refuses is dropped, what it saves is walked and its merged "
-                 "image / layer channels are read against the header and the records.")
+                 "image / layer channels are read against the header and the records. Merged image: every compression (raw, RLE, "
+                 "ZIP, ZIP with prediction) x document made by new / frompil / opened from a file x structural edit (append, "
+                 "append+remove, move, group_layers, Group.new, clear) x first and second save, for every creatable header whose "
+                 "merged image save() regenerates (and three it does not); the stored image data must decode according to the "
+                 "code it declares (RLE: channels*height table entries summing to the rest, each row expanding to the row size; "
+                 "ZIP: inflates to channels*height*rowbytes).")
